@@ -33,7 +33,7 @@ func c15History(n, events int) {
 	w := &c15World{lat: map[*Dialer]time.Duration{}, has: map[*Dialer]bool{}}
 	c15Install(w)
 	policy := consts.DialerSelectionPolicy_MinLastLatency
-	tol := time.Duration(vs.IntRange("tolerance", 0, 1_000_000_000))
+	tol := time.Duration(vs.IntRange("tolerance", 0, 7_200_000_000_000))
 	ds := make([]*Dialer, n)
 	annos := make([]*Annotation, n)
 	off := make([]time.Duration, n)
@@ -190,7 +190,7 @@ func Verif_C15_policy_switch() {
 	w := &c15World{lat: map[*Dialer]time.Duration{}, has: map[*Dialer]bool{}}
 	c15Install(w)
 	n := 2
-	tol := time.Duration(vs.IntRange("tolerance", 0, 1_000_000_000))
+	tol := time.Duration(vs.IntRange("tolerance", 0, 7_200_000_000_000))
 	ds := make([]*Dialer, n)
 	annos := make([]*Annotation, n)
 	off := make([]time.Duration, n)
